@@ -25,27 +25,44 @@ TruncSegs == {s \in [pres : {TRUE}, n : NVals, k : KVals, last : 0..100] : s.las
 RECURSIVE SeqsUpTo(_, _)
 SeqsUpTo(S, n) == IF n = 0 THEN {<<>>} ELSE LET r == SeqsUpTo(S, n - 1) IN r \cup {Append(s, x) : s \in {t \in r : Len(t) = n - 1}, x \in S}
 
+\* Long files, outside the small scope on purpose: the implementation compares the per-channel offset tables of two
+\* channels in blocks of 100 segments before sharing one table between them, a constant no 4-segment file reaches.
+\* A long shape <<m, cut, n1, n2>> has m one-chunk segments of n1 values up to segment `cut' and of n2 values after
+\* it (the harness gives the second channel n1 values throughout, so the two tables agree on a long prefix only).
+\* LongSpecs is empty unless a configuration overrides it (LongSpecs <- c_Long...).
+LongSpecs == {}
+LongShape(t) == [j \in 1..t[1] |-> [pres |-> TRUE, n |-> IF j <= t[2] THEN t[3] ELSE t[4], k |-> 1,
+                                     last |-> IF j <= t[2] THEN t[3] ELSE t[4]]]
+LongL == 60     \* channels longer than this get a sparse request set (below)
+
 Shapes ==
   LET base == SeqsUpTo(FullSegs, MaxSegs) IN
-  IF ~Trunc THEN base
-  ELSE base \cup {Append(s, t) : s \in SeqsUpTo(FullSegs, MaxSegs - 1), t \in TruncSegs}
+  (IF ~Trunc THEN base
+   ELSE base \cup {Append(s, t) : s \in SeqsUpTo(FullSegs, MaxSegs - 1), t \in TruncSegs})
+  \cup {LongShape(t) : t \in LongSpecs}
 
 (* ------------------------------ behaviour ------------------------------- *)
 NoReq == [kind |-> "none"]
 
-Windows(L) == {[kind |-> "window", off |-> o, len |-> l] : o \in 0..(L + Extra), l \in {NoneV} \cup 0..(L + Extra)}
+\* for a long channel: the head, and every offset of the last 45 values and beyond; a few lengths
+WinOffs(L) == IF L > LongL THEN {0, 1, L \div 2} \cup (L - 45)..(L + Extra) ELSE 0..(L + Extra)
+WinLens(L) == IF L > LongL THEN {NoneV, 0, 1, 2, 7, 50} ELSE {NoneV} \cup 0..(L + Extra)
+Windows(L) == {[kind |-> "window", off |-> o, len |-> l] : o \in WinOffs(L), l \in WinLens(L)}
 Bounds(L) == {NoneV} \cup (-(L + Extra))..(L + Extra)
 Slices(L) == IF L > MaxSliceLen THEN {}
              ELSE {[kind |-> "slice", start |-> a, stop |-> b, step |-> st] :
                       a \in Bounds(L), b \in Bounds(L), st \in Steps \cup {0, NoneV}}
-Indices(L) == {[kind |-> "index", i |-> i] : i \in (-(L + Extra))..(L + Extra)}
+IdxSet(L) == IF L > LongL THEN {0, 1, L \div 2} \cup (L - 45)..(L + Extra) \cup (-(L + Extra))..(-L + 2) \cup (-45)..(-1)
+             ELSE (-(L + Extra))..(L + Extra)
+Indices(L) == {[kind |-> "index", i |-> i] : i \in IdxSet(L)}
 Requests(segs) == LET L == TotalLen(segs) IN Windows(L) \cup Slices(L) \cup Indices(L)
 
 Layouts == {FALSE, TRUE}        \* il
 
 \* req.kind = "init": shape chosen, nothing evaluated yet (keeps the single-threaded initial-state phase cheap;
 \* the per-shape work is done when the workers take the Start step)
-Init == /\ shape \in [segs : Shapes, il : Layouts] /\ req = [kind |-> "init"]
+\* (long shapes contiguous only: interleaved channels have equal values per segment, hence equal tables)
+Init == /\ shape \in {sh \in [segs : Shapes, il : Layouts] : Len(sh.segs) > 50 => ~sh.il} /\ req = [kind |-> "init"]
 Start == /\ req.kind = "init" /\ req' = NoReq /\ UNCHANGED shape
 Ask  == /\ req = NoReq /\ req' \in Requests(shape.segs) /\ UNCHANGED shape
 Next == Start \/ Ask
